@@ -1378,6 +1378,14 @@ func (db *DB) WriteJournalAt(ctx context.Context, f *os.File, data []byte, offse
 		db.pageSize = binary.BigEndian.Uint32(data[24:])
 	}
 
+	// A journal header is only written by a connection in rollback mode. The
+	// journal file may have been left behind by PERSIST/TRUNCATE mode so it is
+	// not necessarily created (see CreateJournal) by the transaction that
+	// switches the database away from WAL mode.
+	if offset == 0 && len(data) >= SQLITE_JOURNAL_HEADER_SIZE && !isByteSliceZero(data[:SQLITE_JOURNAL_HEADER_SIZE]) {
+		db.mode.Store(DBModeRollback)
+	}
+
 	dbJournalWriteCountMetricVec.WithLabelValues(db.name).Inc()
 
 	// Assume this is a PERSIST commit if the initial header bytes are cleared.
